@@ -86,7 +86,7 @@ Print Assumptions C01_verdict_is_model_execution.
 (* and therefore, for an accepted quiet Send whose context was not cancelled beforehand: the model execution is terminal, the
    nodes' own invocation log is its call log, and — context never cancelled — that call log is exactly the multiset of the
    sequential traversals of the registry model's pipelines for the type *)
-Theorem C01_verdict_calls_are_traversals : forall c roots, case_ok c -> model_roots c = Some roots -> roots_ok roots ->
+Theorem C01_verdict_calls_are_traversals : forall c roots0 roots, case_ok c -> model_roots c = Some roots0 -> roots = eff_roots c roots0 -> roots_ok roots ->
   d_quiet c = true -> d_pre c = false ->
   exists a, reach (beh_of (d_trace c)) (e0_of (d_trace c)) roots false (a_st a) /\ terminal (a_st a) /\
             sortN (map (fun cl => enc (nobj (fst cl)) (snd cl)) (clog (a_st a))) = sortN (map (fun oc => enc (fst oc) (snd oc)) (d_nodecalls c)) /\
